@@ -1,8 +1,23 @@
----- MODULE GenF ----
-EXTENDS Feature, Json, TLC
-VARIABLES n1, n2, done
-GInit == n1 \in 0..40 /\ n2 \in 0..40 /\ done = FALSE
-GNext == done = FALSE /\ done' = TRUE /\ UNCHANGED <<n1, n2>>
-Emit == done => LET a == Gen(1, n1)  b == Gen(2, n2) IN
-        PrintT(<<"REPLAY", ToJson([kind |-> "feat", a |-> a, b |-> b, plen |-> PackedLen(n1), sq |-> SqDist(a, b), dot |-> Dot(a, b), na |-> Norm2(a, b), nb |-> Norm2(b, a)])>>)
-====
+-------------------------------- MODULE GenF --------------------------------
+(* One case per pair of lengths: the two vectors in packed (zero padded) form,  *)
+(* the admissible packed lengths, and for each query (x, y) over the names       *)
+(*   a, b, ka = k a, nka = -k a                                                  *)
+(* the exact integers sum (x-y)^2, x.y, |x|^2, |y|^2 over the common packed      *)
+(* prefix.  Pairs with an empty vector are checked for packing only.             *)
+EXTENDS FAlpha, Json, TLC
+VARIABLES stage, n1, n2
+vars == <<stage, n1, n2>>
+Init == stage = 0 /\ n1 = 0 /\ n2 = 0
+Next == \/ stage = 0 /\ stage' = 1 /\ n1' \in 0..MaxLen /\ UNCHANGED n2
+        \/ stage = 1 /\ stage' = 2 /\ n2' \in 0..MaxLen /\ UNCHANGED n1
+Spec == Init /\ [][Next]_vars
+AscSeq(S) == IF 0 \in S THEN <<0, Lanes>> ELSE <<CHOOSE x \in S : TRUE>>
+UnitExp(a, b) == (((a + 2 * b) % 3) - 1) * 10            \* unit exponent e in {-10, 0, 10}
+Emit == stage = 2 =>
+        LET a == VecA(n1, n2)  b == VecB(n1, n2)  k == KOf(n1, n2)  ka == Scale(a, k)  nka == Scale(a, -k) IN
+        PrintT(<<"REPLAY", ToJson([kind |-> "feat", n1 |-> n1, n2 |-> n2, e |-> UnitExp(n1, n2), k |-> k,
+                 pa |-> Pack(a), pb |-> Pack(b), la |-> AscSeq(PackedLens(n1)), lb |-> AscSeq(PackedLens(n2)),
+                 q |-> IF n1 = 0 \/ n2 = 0 THEN <<>>
+                       ELSE << Query("a", "b", a, b), Query("b", "a", b, a), Query("a", "a", a, a), Query("b", "b", b, b),
+                               Query("ka", "a", ka, a), Query("nka", "a", nka, a), Query("ka", "b", ka, b), Query("b", "nka", b, nka) >>])>>)
+=============================================================================
